@@ -149,8 +149,8 @@ def gambit_variants(rng, cid):
     """(text, category or None for accepted) built around one generated Gambit game"""
     fc = cc.gen_file_case(cid, rng, fmt="gambit")
     fg = fc.fg
-    kind = rng.choice(["truncate", "header", "probs", "players1", "players3", "sum-out", "sum-in", "huge", "numclash", "dupname",
-                       "sharedname", "contract", "badtoken"])
+    kind = rng.choice(["truncate", "header", "probs", "players1", "players3", "sum-out", "sum-in", "sum-out", "sum-in", "sum-out",
+                       "sum-in", "huge", "numclash", "dupname", "sharedname", "contract", "badtoken"])
     if kind == "truncate":
         t = fc.text[:rng.randrange(5, max(6, len(fc.text) - 2))].rstrip()
         return fc, t, "gambit", kind
@@ -231,29 +231,33 @@ def gambit_variants(rng, cid):
             if n[0] == "c":
                 return ("c", n[1], [(a, pr, rebuild(c)) for a, pr, c in n[2]], n[3], n[4])
             return ("p", n[1], n[2], n[3], [(a, rebuild(c)) for a, c in n[4]], n[5], n[6])
-        text = cli.efg_text(rebuild(fg), rng=rng)
+        fc.fg_variant = rebuild(fg)
+        text = cli.efg_text(fc.fg_variant, rng=rng)
         return fc, text, {"sum-out": "constant-sum", "sum-in": None, "huge": "non-finite"}[kind], kind
     if kind in ("numclash", "dupname", "sharedname", "contract"):
-        # hand-made small games
-        t = 't "" %d { %s }'
+        # hand-made small games (as parsed-file structures, so that the Coq model of the reader sees them too)
+        F = Fraction
+
+        def T(oid, a, b):
+            return ("t", oid, (F(a), F(b)))
         if kind == "numclash":
             # infoset 2 of player 1 is unnamed; infoset 1 of player 1 is named "2"
-            text = ('EFG 2 R "g" { "a" "b" }\np "" 1 1 "2" { "l" "r" } 0\np "" 1 2 { "x" "y" } 0\n' + t % (1, "1 -1") + "\n" + t % (2, "0 0")
-                    + "\n" + t % (3, "2 -2") + "\n")
-            return fc, text, "duplicate", kind
-        if kind == "dupname":
-            text = ('EFG 2 R "g" { "a" "b" }\nc "" 1 "" { "h" 1/2 "t" 1/2 } 0\np "" 1 1 "same" { "l" "r" } 0\n' + t % (1, "1 -1") + "\n"
-                    + t % (2, "0 0") + '\np "" 1 2 "same" { "l" "r" } 0\n' + t % (3, "2 -2") + "\n" + t % (2, "0 0") + "\n")
-            return fc, text, "duplicate", kind
-        if kind == "sharedname":
+            g = ("p", 1, 1, "2", [("l", ("p", 1, 2, None, [("x", T(1, 1, -1)), ("y", T(2, 0, 0))], 0, None)), ("r", T(3, 2, -2))], 0, None)
+            cat = "duplicate"
+        elif kind == "dupname":
+            g = ("c", 1, [("h", F(1, 2), ("p", 1, 1, "same", [("l", T(1, 1, -1)), ("r", T(2, 0, 0))], 0, None)),
+                          ("t", F(1, 2), ("p", 1, 2, "same", [("l", T(3, 2, -2)), ("r", T(2, 0, 0))], 0, None))], 0, None)
+            cat = "duplicate"
+        elif kind == "sharedname":
             # both players use the name "same": separate namespaces, must be accepted
-            text = ('EFG 2 R "g" { "a" "b" }\np "" 1 1 "same" { "l" "r" } 0\np "" 2 1 "same" { "x" "y" } 0\n' + t % (1, "1 -1") + "\n"
-                    + t % (2, "0 0") + "\n" + t % (3, "2 -2") + "\n")
-            return fc, text, None, kind
-        # contract: the same infoset twice along one path
-        text = ('EFG 2 R "g" { "a" "b" }\np "" 1 1 "i" { "l" "r" } 0\np "" 1 1 "i" { "l" "r" } 0\n' + t % (1, "1 -1") + "\n" + t % (2, "0 0")
-                + "\n" + t % (3, "2 -2") + "\n")
-        return fc, text, "game", kind
+            g = ("p", 1, 1, "same", [("l", ("p", 2, 1, "same", [("x", T(1, 1, -1)), ("y", T(2, 0, 0))], 0, None)), ("r", T(3, 2, -2))], 0, None)
+            cat = None
+        else:
+            # contract: the same infoset twice along one path
+            g = ("p", 1, 1, "i", [("l", ("p", 1, 1, "i", [("l", T(1, 1, -1)), ("r", T(2, 0, 0))], 0, None)), ("r", T(3, 2, -2))], 0, None)
+            cat = "game"
+        fc.fg_variant = g
+        return fc, cli.efg_text(g, rng=rng), cat, kind
     return None
 
 
@@ -261,6 +265,7 @@ def run(out, rng, tier, args):
     n = args.n or (N_THOROUGH if tier == "thorough" else N_QUICK)
     cid = 0
     done = 0
+    model_jobs = []      # (cid, coq expression, expected category, what the binary did)
     while done < n:
         cid += 1
         if rng.random() < 0.5:
@@ -306,6 +311,9 @@ def run(out, rng, tier, args):
         out.count("read_" + how)
         replay = {"file": text, "format": fmt, "options": a, "route": "file" if "path_text" in kw else "stdin", "kind": kind,
                   "expected_category": expect, "result": {k: res[k] for k in ("exit", "stderr", "cmd")}, "stdout": res["stdout"][:2000]}
+        if fmt == "gambit" and getattr(fc, "fg_variant", None) is not None and how != "wrong-format":
+            expr, _ = cli.coq_gambit_tree_expr(fc.fg_variant)
+            model_jobs.append((cid, expr, cat, res["exit"], res["stderr"], replay))
         if expect is None:
             out.count("accepted_controls")
             if res["exit"] != 0:
@@ -335,6 +343,40 @@ def run(out, rng, tier, args):
         if not ok:
             out.monitor_hits.append((cid, "rejected, but the diagnostic does not name the documented category %r (%s, read %s): %s"
                                      % (ANCHOR.get(expect, expect), kind, how, res["stderr"][:300]), replay, "diagnostic"))
+    model_categories(out, model_jobs)
+
+
+def _after_run_marker():
+    pass
+
+
+def model_categories(out, jobs):
+    """the Coq model of the Gambit reader (Cli.gambit_tree + from_root) on the same parsed files: its category
+    must be the generator's and the binary's"""
+    from .. import coqrun
+    from ..coqrun import coq_N
+    if not jobs:
+        return
+    bodies = ["Eval vm_compute in (%s, o_loaded %s)." % (coq_N(cid), expr) for cid, expr, _, _, _, _ in jobs]
+    res = coqrun.run_shards("C17_model", bodies)
+    code_cat = {100: "duplicate", 101: "non-finite", 102: "constant-sum"}
+    for cid, expr, cat, exit_, stderr, replay in jobs:
+        m = res.get(cid)
+        if m is None:
+            out.corr_breaks.append((cid, "the Coq model of the Gambit reader produced no result", replay))
+            continue
+        if m["tag"] == 0:
+            mcat = None
+        else:
+            code = m["args"][0]
+            mcat = code_cat.get(code, "game")
+        out.count("model_category_%s" % (mcat or "accepted"))
+        if mcat != cat:
+            out.corr_breaks.append((cid, "Coq model of the Gambit reader says %r, the generator expects %r" % (mcat, cat), replay))
+        bin_rejects = exit_ != 0
+        if (mcat is not None) != bin_rejects or (mcat is not None and ANCHOR[mcat] not in stderr):
+            out.corr_breaks.append((cid, "Coq model of the Gambit reader says %r but the binary exits %r with %s"
+                                    % (mcat, exit_, stderr[:160]), replay))
 
 
 def replay(path, out):
